@@ -26,11 +26,19 @@ size_t vf_wl_len;
 #include <barrier.c>
 
 static ABTI_barrier ba;
+static ABTI_xstream xs;
+static ABTI_thread self;
+static int caller_is_tasklet;
 static void setup(void)
 {
     vf_ba = &ba;
     vf_lock_held = 0;
-    lp_ABTI_local = NULL;
+    /* caller: external thread (no local), a ULT, or a tasklet (rejected by the
+     * 1.x API before anything is touched) */
+    int ext;
+    xs.p_thread = &self;
+    lp_ABTI_local = ext ? NULL : (ABTI_local *)&xs;
+    caller_is_tasklet = !ext && !(self.type & ABTI_THREAD_TYPE_YIELDABLE);
     VF_ASSUME(ba.num_waiters >= 1 && ba.num_waiters <= 0xffffffffu);
     VF_ASSUME(vf_clock < 100 && vf_acquires < 100 && vf_releases < 100 && vf_wl_bcasts < 100 && vf_wl_waits < 100);
 }
@@ -38,7 +46,14 @@ void h_barrier_wait(void)
 {
     setup();
     unsigned w0 = vf_wl_waits, b0 = vf_wl_bcasts, a0 = vf_acquires, r0 = vf_releases;
+    size_t cnt0 = ba.counter;
     int r = ABT_barrier_wait((ABT_barrier)&ba);
+    if (caller_is_tasklet) {
+        VF_ASSERT(r == ABT_ERR_BARRIER && ba.counter == cnt0 && vf_acquires == a0 && vf_releases == r0 && vf_wl_waits == w0 && vf_wl_bcasts == b0 && vf_lock_held == 0,
+                  "tasklet caller rejected with nothing changed (not counted as an arrival)");
+        VF_REACH("tasklet rejected");
+        return;
+    }
     VF_ASSERT(r == ABT_SUCCESS && vf_lock_held == 0 && vf_acquires == a0 + 1 && vf_releases == r0 + 1 && vf_lock_which == &ba.lock, "one critical section on the barrier's lock");
     if (vf_c_at_lock + 1 < ba.num_waiters) {
         VF_ASSERT(vf_wl_waits == w0 + 1 && vf_wl_bcasts == b0 && vf_wl_which == &ba.waitlist, "round not complete: the caller waits, nobody is released");
@@ -59,6 +74,8 @@ void h_barrier_misc(void)
     VF_ASSERT(ABT_barrier_reinit((ABT_barrier)&ba, 0) == ABT_ERR_INV_ARG && ba.num_waiters == nw0 && ba.counter == 0, "reinit(0) rejected, nothing changed");
     VF_ASSERT(ABT_barrier_reinit((ABT_barrier)&ba, nw) == (nw ? ABT_SUCCESS : ABT_ERR_INV_ARG), "reinit result");
     VF_ASSERT(nw ? (ba.num_waiters == nw && ba.counter == 0) : ba.num_waiters == nw0, "reinit installs the new count, counter untouched");
+    VF_ASSERT(vf_lock_held == 0, "reinit leaves the barrier lock free");
+    { uint32_t same = (uint32_t)ba.num_waiters; VF_ASSERT(ABT_barrier_reinit((ABT_barrier)&ba, same) == ABT_SUCCESS && vf_lock_held == 0 && ba.num_waiters == same, "reinit with the unchanged count: success, lock free"); }
     VF_ASSERT(ABT_barrier_get_num_waiters((ABT_barrier)&ba, &n) == ABT_SUCCESS && n == (uint32_t)ba.num_waiters, "get_num_waiters");
     VF_ASSERT(ABT_barrier_wait(ABT_BARRIER_NULL) == ABT_ERR_INV_BARRIER && ABT_barrier_reinit(ABT_BARRIER_NULL, 1) == ABT_ERR_INV_BARRIER, "NULL handle rejected");
     ABT_barrier nb = (ABT_barrier)0x77;
